@@ -152,14 +152,32 @@ func (l *logValue) Set(s string) error {
 
 func (l *logValue) String() string { return strings.Join(l.log, ",") }
 
+// wrapValue is a user-defined Value that delegates to a GeneralValue: to the package it is NOT a GeneralValue, so even
+// around a *bool it is a value-taking option.
+type wrapValue struct{ inner *cmdline.GeneralValue }
+
+func (w *wrapValue) Set(s string) error { return w.inner.Set(s) }
+func (w *wrapValue) String() string     { return w.inner.String() }
+
+// subCmd is a cmdline.Cmd: its Run receives the fresh CmdLine RunCommand creates for it.
+type subCmd struct {
+	name string
+	run  func(cl *cmdline.CmdLine, args []string) error
+}
+
+func (c *subCmd) Name() string                                { return c.name }
+func (c *subCmd) Usage() string                               { return "usage of " + c.name }
+func (c *subCmd) Run(cl *cmdline.CmdLine, args []string) error { return c.run(cl, args) }
+
 // ---------------------------------------------------------------------------------------------- line format
 
 type decl struct {
 	single  int64
 	hasName bool
 	name    string
-	kind    string // base name, "[]"+base name, or "log"
+	kind    string // base name, "[]"+base name, "log" or "wbool"
 	defs    []string
+	route   string // g: NewGeneralOption(ptr); v: NewOption(&GeneralValue{ptr}); w: NewOption(user Value wrapping a GeneralValue)
 }
 
 type fileSpec struct {
@@ -237,14 +255,17 @@ func parseLine(line string) *op {
 		switch sec {
 		case 1:
 			p := strings.Split(w, ":")
-			if len(p) != 4 {
+			if len(p) != 4 && len(p) != 5 {
 				return nil
 			}
 			sg, err := strconv.ParseInt(p[0], 10, 64)
 			if err != nil {
 				return nil
 			}
-			d := decl{single: sg, kind: p[2], defs: decList(p[3])}
+			d := decl{single: sg, kind: p[2], defs: decList(p[3]), route: "g"}
+			if len(p) == 5 {
+				d.route = p[4]
+			}
 			if p[1] != "~" {
 				d.hasName = true
 				d.name = string(hx.UnHex(p[1]))
@@ -287,9 +308,34 @@ func spare(args []string, extra int) []string {
 
 var extras = []int{0, 0, 1, 2, 3, 7, 16, 64, 1000}
 
-// execute declares the options, runs Parse and renders the result. On the fatal path it does not return.
+// execute obtains a CmdLine (directly from New, or the one RunCommand hands to a sub-command), declares the options
+// through the route each declaration names, runs Parse and renders the result. On the fatal path it does not return.
 func execute(o *op) string {
-	cl := cmdline.New(o.incl)
+	if !o.incl && o.h>>44&3 == 0 {
+		// the sub-command route: the CmdLine comes from RunCommand -> newWithCmd (no default options)
+		parent := cmdline.New(o.h>>46&1 == 1)
+		out := "run-not-called"
+		name := "sub"
+		parent.AddCommand(&subCmd{name: "other", run: func(*cmdline.CmdLine, []string) error { out = "wrong-command"; return nil }})
+		parent.AddCommand(&subCmd{name: name, run: func(cl *cmdline.CmdLine, args []string) error {
+			out = executeOn(cl, o, args)
+			return nil
+		}})
+		var err error
+		if len(o.args) == 1 && o.args[0] == "-h" && !o.twice && o.h>>47&1 == 1 {
+			err = parent.RunCommand([]string{"help", name}) // the built-in help command runs the command with -h
+		} else {
+			err = parent.RunCommand(append([]string{name}, o.args...))
+		}
+		if err != nil {
+			return "runcommand-error"
+		}
+		return out
+	}
+	return executeOn(cmdline.New(o.incl), o, spare(o.args, extras[int(o.h>>16)%len(extras)]))
+}
+
+func executeOn(cl *cmdline.CmdLine, o *op, args []string) string {
 	h := o.h
 	bit := func() bool { b := h&1 == 1; h = h>>1 | h<<63; return b }
 	if o.child && bit() {
@@ -309,8 +355,12 @@ func execute(o *op) string {
 				return "[" + strings.Join(p, ",") + "]"
 			})
 		} else {
-			slice := strings.HasPrefix(d.kind, "[]")
-			b := baseByName(strings.TrimPrefix(d.kind, "[]"))
+			kind, route := d.kind, d.route
+			if kind == "wbool" {
+				kind, route = "bool", "w"
+			}
+			slice := strings.HasPrefix(kind, "[]")
+			b := baseByName(strings.TrimPrefix(kind, "[]"))
 			if b == nil {
 				return "bad-op"
 			}
@@ -335,7 +385,17 @@ func execute(o *op) string {
 				}
 				ptr.Elem().Set(reflect.ValueOf(v))
 			}
-			opt = cl.NewGeneralOption(ptr.Interface())
+			switch route {
+			case "v":
+				opt = cl.NewOption(&cmdline.GeneralValue{Value: ptr.Interface()})
+			case "w":
+				if d.kind == "bool" {
+					return "bad-op" // a wrapped bool is not a flag: the line must say wbool
+				}
+				opt = cl.NewOption(&wrapValue{inner: &cmdline.GeneralValue{Value: ptr.Interface()}})
+			default:
+				opt = cl.NewGeneralOption(ptr.Interface())
+			}
 			renderers = append(renderers, func() string {
 				e := ptr.Elem()
 				if slice {
@@ -348,24 +408,41 @@ func execute(o *op) string {
 				return canon(e)
 			})
 		}
-		// the remaining setters of Option must not influence parsing, in whatever order they are called
+		// the setters of Option in varying order; a repeated SetSingle / SetName replaces the earlier one; SetUsage,
+		// SetArg and SetDefault must not influence parsing
+		setSingle := func() {
+			if d.single != 0 {
+				if bit() {
+					opt.SetSingle('Z').SetSingle(0)
+				}
+				opt.SetSingle(rune(d.single))
+			}
+		}
+		setName := func() {
+			if d.hasName {
+				if bit() && len(d.name) > 1 {
+					opt.SetName("replaced-name")
+				}
+				opt.SetName(d.name)
+			}
+		}
 		if bit() {
 			opt.SetUsage(fmt.Sprintf("usage text of option %d", k))
 		}
 		if bit() {
 			opt.SetArg("ARG")
 		}
-		if d.single != 0 {
-			opt.SetSingle(rune(d.single))
+		if bit() {
+			setName()
+			setSingle()
+		} else {
+			setSingle()
+			setName()
 		}
 		if bit() {
 			opt.SetDefault("shown default")
 		}
-		if d.hasName {
-			opt.SetName(d.name)
-		}
 	}
-	args := spare(o.args, extras[int(o.h>>16)%len(extras)])
 	rest := cl.Parse(args)
 	var rest1 []string
 	if o.twice {
@@ -497,6 +574,16 @@ func runFx(f []string) {
 		cl.FatalIfError(nil)
 	case "write":
 		fmt.Fprint(cl, fxMark) //nolint:errcheck
+	case "cmdnone", "cmdbad": // RunCommand reports a missing / unknown command name as an error, it does not exit
+		cl.AddCommand(&subCmd{name: "sub", run: func(*cmdline.CmdLine, []string) error { fmt.Println("RAN"); return nil }})
+		args := []string{"nosuch", "x"}
+		if f[1] == "cmdnone" {
+			args = nil
+		}
+		if err := cl.RunCommand(args); err == nil {
+			fmt.Println("\nR no-error")
+			return
+		}
 	}
 	fmt.Println("\nR returned")
 }
